@@ -16,7 +16,7 @@ CHECKS = {
               "one request and one response envelope per id on the tap; plus a smoke job (TestC01Net) running 1..16 concurrent unary calls over a real loopback WebSocket pair and over two GoatOverHttp endpoints (wall-clock budget, overrun = inconclusive). Non-trivial = (>=2 calls and reply order != request order on the wire) or a request that is empty or >=16KiB; "
               "distinct = distinct canonical case JSON (64-bit hash)."),
         jobs=[dict(test="TestC01", quick=1920, thorough=24000), dict(test="TestC01Net", quick=64, thorough=1000, shards=4), dict(test="TestC01Reuse", quick=200, thorough=2000, shards=4)],
-        floors={"reordered=true": 0.15, "topo=proxy": 0.1, "topo=demux": 0.1, "ser=true": 0.25},
+        floors={"TestC01:reordered=true": 0.15, "TestC01:topo=proxy": 0.1, "TestC01:topo=demux": 0.1, "TestC01:ser=true": 0.25},
         assumptions=COMMON_ASSUMPTIONS,
     ),
     "C02": dict(
@@ -28,7 +28,7 @@ CHECKS = {
               "caller-received == handler-sent complete and in order, terminal receive is io.EOF iff the handler returned nil, repeated receives after the end never yield data. "
               "Non-trivial = envelopes of >=2 calls interleaved on one connection, or >=11 messages one way, or separate sender/receiver goroutines; distinct = canonical case JSON hash."),
         jobs=[dict(test="TestC02", quick=4800, thorough=40000), dict(test="TestC02Race", quick=200, thorough=2000, shards=4), dict(test="FuzzC02", kind="fuzz", quick=0, thorough=90)],
-        floors={"interleaved=true": 0.2, "concurrent=true": 0.1, "msgs>=11": 0.05, "kind=client": 0.1, "kind=server": 0.1, "kind=bidi": 0.2},
+        floors={"TestC02:interleaved=true": 0.2, "TestC02:concurrent=true": 0.1, "TestC02:msgs>=11": 0.05, "TestC02:kind=client": 0.1, "TestC02:kind=server": 0.1, "TestC02:kind=bidi": 0.2, "TestC02:arm_end=true": 0.1},
         assumptions=COMMON_ASSUMPTIONS,
     ),
     "C03": dict(
@@ -39,7 +39,7 @@ CHECKS = {
               "race: the server's trailer Write is parked while the caller sends 1..4 more bodies, then released (reset vs trailer). "
               "Non-trivial = non-OK outcome with >=1 detail, or mid-stream failure position, or any foreign/race case; distinct = canonical case hash."),
         jobs=[dict(test="TestC03", quick=4800, thorough=40000), dict(test="TestC03Foreign", quick=800, thorough=10000, shards=4), dict(test="TestC03Race", quick=400, thorough=5000, shards=4), dict(test="FuzzC03", kind="fuzz", quick=0, thorough=90)],
-        floors={"pos=mid-stream": 0.02, "race=armed": 0.02},
+        floors={"TestC03:pos=mid-stream": 0.03, "TestC03:intercept=true": 0.1},
         assumptions=COMMON_ASSUMPTIONS,
     ),
     "C04": dict(
@@ -49,7 +49,7 @@ CHECKS = {
               "Oracle model.MD (independent join/lower-case/base64 implementation): handler's incoming metadata, Header(), Trailer(), unary InHeader (recording stats handler) and the tap (decoded by the model) all equal the model; response metadata only on the first response envelope. "
               "Non-trivial = a -bin value with NUL or non-UTF-8 bytes, or a key with >=2 values, or >=2 set calls; distinct = canonical case hash."),
         jobs=[dict(test="TestC04", quick=4800, thorough=50000), dict(test="TestC04Foreign", quick=800, thorough=10000, shards=4), dict(test="FuzzC04", kind="fuzz", quick=0, thorough=90)],
-        floors={"md-nontrivial": 0.3, "hdr-via=sendheader": 0.03, "hdr-via=first-message": 0.05, "hdr-via=with-trailer": 0.05, "unary": 0.1},
+        floors={"TestC04:md-nontrivial": 0.3, "TestC04:hdr-via=sendheader": 0.03, "TestC04:hdr-via=first-message": 0.05, "TestC04:hdr-via=with-trailer": 0.05, "TestC04:unary": 0.1},
         assumptions=COMMON_ASSUMPTIONS,
     ),
     "C06": dict(
@@ -59,7 +59,7 @@ CHECKS = {
               "s->c = HEADER? BODY* TRAILER(status) then only resets answering a late body, trailer present iff the handler returned on a live un-reset stream, no reset before that trailer; constant method/source/destination, swapped in responses; "
               "response metadata only on the first response envelope; server emits only ids it has read. Non-trivial = a projection with >=4 envelopes or a reset, or an early handler return; distinct = canonical case hash."),
         jobs=[dict(test="TestC06", quick=4800, thorough=60000), dict(test="TestC06Race", quick=300, thorough=3000, shards=4), dict(test="TestC06Cancel", quick=240, thorough=3000)],
-        floors={"family=c01": 0.07, "family=c02": 0.15, "family=c03": 0.07, "family=c04": 0.07, "early_return=true": 0.07},
+        floors={"TestC06:family=c01": 0.1, "TestC06:family=c02": 0.2, "TestC06:family=c03": 0.1, "TestC06:family=c04": 0.1, "TestC06:early_return=true": 0.1},
         assumptions=COMMON_ASSUMPTIONS,
     ),
     "C08": dict(
@@ -73,7 +73,7 @@ CHECKS = {
               dict(test="TestC08Strings", quick=24000, thorough=1000000),
               dict(test="TestC08E2E", quick=1600, thorough=60000),
               dict(test="FuzzC08", kind="fuzz", quick=0, thorough=180)],
-        floors={"parser.valid": 0.05, "parser.malformed": 0.2, "e2e.api": 0.001, "e2e.header.valid": 0.0005},
+        floors={"TestC08Strings:parser.valid": 0.1, "TestC08Strings:parser.malformed": 0.3, "TestC08Strings:parser.overlong": 0.03, "TestC08E2E:e2e.api": 0.1, "TestC08E2E:e2e.header.valid": 0.03, "TestC08E2E:e2e.api-expired.lt1ms": 0.03},
         assumptions=COMMON_ASSUMPTIONS + ["the timeout parser is reached through the verif-tagged export VerifParseGrpcTimeout (same function the server calls)"],
     ),
     "C07": dict(
@@ -84,7 +84,7 @@ CHECKS = {
               "a later send fails with the context's error; Header() returns; a reset for the id is on the tap; the handler's context is done at the next quiescent point and the handler has exited; bystanders complete exactly; the cancelled stream's wire projection conforms (C06). "
               "Non-trivial = trace length >=2, or >=1 unread response, or deadline; distinct = distinct scenario; counters.positions = number of (scenario, position) executions."),
         jobs=[dict(test="TestC07", quick=1280, thorough=6000), dict(test="FuzzC07", kind="fuzz", quick=0, thorough=90)],
-        floors={"unread>=3": 0.07, "deadline=true": 0.25, "kind=bidi": 0.15, "kind=server": 0.15, "kind=client": 0.15},
+        floors={"TestC07:unread>=3": 0.08, "TestC07:deadline=true": 0.3, "TestC07:kind=bidi": 0.2, "TestC07:kind=server": 0.2, "TestC07:kind=client": 0.2, "TestC07:park_send=true": 0.05},
         assumptions=COMMON_ASSUMPTIONS + ["handlers that ignore >=2 queued requests and then wait are documented head-of-line blocking and generated under C11, not here"],
     ),
     "C11": dict(
@@ -94,7 +94,7 @@ CHECKS = {
               "Oracle: probe returns its exact reply (DeadlineExceeded means everything was stuck), bystanders complete exactly, the abandoned call terminates (with the handler's status for early returns), no definitive deadlock (watchdog). "
               "Non-trivial = >=2 unread bodies, >=3 unread responses, surplus envelopes, or >=1 bystander; distinct = distinct case."),
         jobs=[dict(test="TestC11Grid", kind="enum", quick=1, thorough=1, shards=1), dict(test="TestC11", quick=3200, thorough=20000), dict(test="FuzzC11", kind="fuzz", quick=0, thorough=90)],
-        floors={"mode=handler-early": 0.1, "mode=caller-cancel": 0.1, "mode=client-extra": 0.1, "mode=server-extra": 0.1},
+        floors={"TestC11:mode=handler-early": 0.15, "TestC11:mode=caller-cancel": 0.15, "TestC11:mode=client-extra": 0.12, "TestC11:mode=server-extra": 0.12},
         assumptions=COMMON_ASSUMPTIONS + ["a caller that stops reading without cancelling is documented head-of-line blocking (the quantifier lists cancellation) and is not generated"],
     ),
     "C09": dict(
@@ -105,7 +105,7 @@ CHECKS = {
               "Oracle: at the next quiescent point every call has returned; a call succeeds only if its complete response had been delivered, and then with exactly the scripted data; streams receive a prefix of the scripted bodies and never end in io.EOF before their trailer was delivered; Header() returns; calls started afterwards and the window call fail. "
               "Non-trivial = trace length >=2, or window armed, or write side still writable; counters.positions = (scenario, position) executions."),
         jobs=[dict(test="TestC09", quick=960, thorough=6000), dict(test="TestC09Storm", quick=1600, thorough=40000), dict(test="FuzzC09", kind="fuzz", quick=0, thorough=90)],
-        floors={"window=unary": 0.03, "window=stream": 0.03, "write_fails=false": 0.1},
+        floors={"TestC09:window=unary": 0.1, "TestC09:window=stream": 0.1, "TestC09:write_fails=false": 0.3},
         assumptions=COMMON_ASSUMPTIONS + ["the check-then-register window is reached through the verif-tagged yield points mux.unary.beforeRegister / mux.stream.beforeRegister"],
     ),
     "C10": dict(
@@ -115,7 +115,7 @@ CHECKS = {
               "Oracle at the quiescent point after the ending: Serve has returned - but not while a context-ignoring streaming handler is still running; every streaming handler has finished; the context of every in-flight handler, unary included, is done; "
               "after the context-ignoring unary handlers have been released and returned, the synctest bubble ends with no goroutine left. Non-trivial = >=1 unary and >=1 stream in flight, or a handler parked in send."),
         jobs=[dict(test="TestC10", quick=4800, thorough=30000), dict(test="FuzzC10", kind="fuzz", quick=0, thorough=90)],
-        floors={"ending=readfail": 0.15, "ending=writefail": 0.15, "ending=stop": 0.15, "parked-in-send": 0.1},
+        floors={"TestC10:ending=readfail": 0.2, "TestC10:ending=writefail": 0.2, "TestC10:ending=stop": 0.2, "TestC10:parked-in-send": 0.1, "TestC10:orphan=true": 0.2},
         assumptions=COMMON_ASSUMPTIONS + ["cancelling the context passed to Serve is not among the endings the property lists and is not generated"],
     ),
     "C12": dict(
@@ -147,7 +147,7 @@ CHECKS = {
               "Non-trivial = an interleaving with >=1 switch between calls, or a burst of >=8 concurrent starts; distinct = distinct (side, shape, interleaving)."),
         jobs=[dict(test="TestC05Enum", kind="enum", quick=1, thorough=1), dict(test="TestC05", quick=3200, thorough=20000), dict(test="TestC05IDs", quick=480, thorough=2000),
               dict(test="TestC05History", kind="enum", quick=1, thorough=1, shards=1), dict(test="TestC05Reuse", quick=200, thorough=2000, shards=4)],
-        floors={"side=client": 0.15, "side=server": 0.15},
+        floors={"TestC05:side=client": 0.25, "TestC05:side=server": 0.25},
         assumptions=COMMON_ASSUMPTIONS,
     ),
     "C14": dict(
@@ -157,7 +157,7 @@ CHECKS = {
               "Invariant at every quiescent point: goat.VerifClientCalls(cc)==0, goat.VerifServerStreams()==0 (verif-tagged registry accessors) and the multiset of creation sites of the bubble's live goroutines equals the idle set recorded right after connection start. "
               "Non-trivial = history with >=3 different outcomes and a round of >=8 RPCs; counters.rpcs = RPCs executed."),
         jobs=[dict(test="TestC14", quick=1600, thorough=48000), dict(test="FuzzC14", kind="fuzz", quick=0, thorough=90)],
-        floors={"outcome=openfail": 0.2, "outcome=cancel": 0.2, "outcome=deadline": 0.2, "outcome=reset": 0.2},
+        floors={"TestC14:outcome=openfail": 0.3, "TestC14:outcome=cancel": 0.3, "TestC14:outcome=cancel-unread": 0.15, "TestC14:outcome=deadline": 0.3, "TestC14:outcome=reset": 0.3},
         assumptions=COMMON_ASSUMPTIONS + ["registry sizes are read through the verif-tagged accessors VerifClientCalls / VerifServerStreams"],
     ),
     "C20": dict(
@@ -168,7 +168,7 @@ CHECKS = {
               "per stats handler and RPC tag: Begin first, exactly one Begin and one End, End.Error==nil iff the RPC succeeded on that side, no event without the tag, TagRPC once per RPC (server side may see none for an RPC that never reached it); exactly one ConnBegin and ConnEnd per connection per handler. "
               "Non-trivial = chain length >=3, or a non-ok outcome, or >=2 stats handlers on a side."),
         jobs=[dict(test="TestC20", quick=4800, thorough=30000), dict(test="FuzzC20", kind="fuzz", quick=0, thorough=90)],
-        floors={"outcome=cancel": 0.05, "outcome=transport": 0.05, "outcome=openfail": 0.03, "chain=6": 0.05, "single=true": 0.02},
+        floors={"TestC20:outcome=cancel": 0.08, "TestC20:outcome=transport": 0.06, "TestC20:outcome=openfail": 0.05, "TestC20:chain=6": 0.08, "TestC20:single=true": 0.03, "TestC20:unread=true": 0.02},
         assumptions=COMMON_ASSUMPTIONS + ["a caller's cancellation of a unary call is not conveyed to the server by goat (no reset for unary calls); the harness releases such handlers itself"],
     ),
     "C16": dict(
@@ -180,7 +180,7 @@ CHECKS = {
               "burst: 17..60 envelopes (or a server stream of that many messages) to one destination whose writes are parked: loss equal to the verif drop counter is the listed known finding proxy-drop; any other loss, duplicate or reordering is a violation. "
               "Non-trivial = >=2 sources to one destination, a dial-on-demand peer, a rewrite, >=2 proxy clients, or a burst."),
         jobs=[dict(test="TestC16", quick=1600, thorough=20000), dict(test="TestC16RPC", quick=960, thorough=12000), dict(test="TestC16Burst", quick=64, thorough=1000, shards=4), dict(test="FuzzC16", kind="fuzz", quick=0, thorough=90)],
-        floors={"dial_on_demand=true": 0.1, "rewrite=alias": 0.03, "burst.rpc=true": 0.005},
+        floors={"TestC16:dial_on_demand=true": 0.3, "TestC16:rewrite=alias": 0.1, "TestC16:late_dialable=true": 0.05, "TestC16Burst:burst.rpc=true": 0.2},
         assumptions=COMMON_ASSUMPTIONS + ["loss is attributed to buffer overflow through the verif-tagged counter at the proxy's drop site"],
     ),
     "C17": dict(
@@ -190,7 +190,7 @@ CHECKS = {
               "Oracle: no crash; spoofed/headerless envelopes reach nobody; every honest envelope arrives exactly once at the next quiescent point whatever the bad peer does; a failed connection is reported to the disconnect callback and an envelope to its name then triggers a fresh dial; "
               "after re-attachment traffic reaches the new connection; after cancellation nothing is forwarded, Serve returns and the synctest bubble ends with no goroutine left. Non-trivial = every case (all involve a fault, a spoof or a cancellation)."),
         jobs=[dict(test="TestC17", quick=3200, thorough=30000), dict(test="FuzzC17", kind="fuzz", quick=0, thorough=90)],
-        floors={"mode=cancel": 0.1, "mode=reattach/old_first=false/read": 0.02, "mode=spoof/other-source": 0.02},
+        floors={"TestC17:mode=cancel": 0.15, "TestC17:mode=reattach/old_first=false/read": 0.03, "TestC17:mode=spoof/other-source": 0.03, "TestC17:mode=badpeer/slow-failing-dial": 0.02},
         assumptions=COMMON_ASSUMPTIONS,
     ),
     "C18": dict(
@@ -200,7 +200,7 @@ CHECKS = {
               "Oracle: every logical connection received exactly the envelopes the model hands to that life, in order; announcements == key lives; envelopes written on logical connections appear unchanged and in order on the shared transport; writes on a cancelled connection fail without blocking; readers of cancelled connections have returned with an error; Run has returned after Stop; no panic. "
               "rpc: the C01/C02 generators from 2..4 logical clients through one shared transport into one Server via Demux keyed by source, same oracles. Non-trivial = >=2 keys, a Cancel or a Stop."),
         jobs=[dict(test="TestC18", quick=6400, thorough=80000), dict(test="TestC18RPC", quick=320, thorough=8000), dict(test="TestC18Parked", quick=300, thorough=3000, shards=4), dict(test="FuzzC18", kind="fuzz", quick=0, thorough=90)],
-        floors={"cancel=true": 0.2, "stop=true": 0.02, "cancel_while_parked=true": 0.02},
+        floors={"TestC18:cancel=true": 0.3, "TestC18:stop=true": 0.03, "TestC18:cancel_while_parked=true": 0.03},
         assumptions=COMMON_ASSUMPTIONS,
     ),
     "C19": dict(
@@ -213,7 +213,7 @@ CHECKS = {
               "Non-trivial = >=2 envelopes or a body >32KiB (roundtrip); every raw/ctx/idle case."),
         jobs=[dict(test="TestC19RoundTrip", quick=480, thorough=8000), dict(test="TestC19Raw", quick=800, thorough=20000), dict(test="TestC19Ctx", quick=48, thorough=400, shards=8),
               dict(test="TestC19Idle", quick=400, thorough=6000, shards=8), dict(test="FuzzC19Decode", kind="fuzz", quick=0, thorough=120)],
-        floors={"rt.websocket": 0.05, "rt.http": 0.05, "rt.channel": 0.02},
+        floors={"TestC19RoundTrip:rt.websocket": 0.25, "TestC19RoundTrip:rt.http": 0.2, "TestC19RoundTrip:rt.channel": 0.1},
         assumptions=COMMON_ASSUMPTIONS + ["WebSocket and HTTP sub-checks use real loopback sockets and wall-clock budgets; exceeding a budget is reported as inconclusive (exit 2), never as a violation"],
         timeout_quick=600,
     ),
@@ -223,7 +223,7 @@ CHECKS = {
               "C11 abandonments, C16 proxy envelopes and RPCs, C17, C18 demux model and RPCs, C20 interceptors/stats) are executed at GOMAXPROCS 1, 2, 4 and 16 (go test -cpu) with a callback at every verif hook point that yields the processor according to a drawn tape. "
               "The only oracle is the race detector (GORACE=halt_on_error=1): a report with at least one goat frame is a violation, a report without one is a harness bug (exit 2). Non-trivial = a workload with >=2 user goroutines on one connection; distinct = (family, case)."),
         jobs=[dict(test="TestC15", race=True, cpu="1,2,4,16", quick=960, thorough=24000)],
-        floors={"family=c02": 0.05, "family=c10": 0.02, "family=c18": 0.02, "gomaxprocs=16": 0.15, "gomaxprocs=1": 0.15},
+        floors={"TestC15:family=c02": 0.05, "TestC15:family=c10": 0.03, "TestC15:family=c18": 0.03, "TestC15:gomaxprocs=16": 0.15, "TestC15:gomaxprocs=1": 0.15},
         assumptions=COMMON_ASSUMPTIONS + ["the race detector only sees the interleavings that were executed: this is search, not proof"],
         timeout_quick=900,
     ),
